@@ -23,11 +23,12 @@ type c14Case struct {
 	Origin string `json:"origin"` // gopki | stdlib | hand
 	KeyFix string `json:"keyFix"` // fixture name
 	Layout int    `json:"layout,omitempty"`
-	CSR    bool   `json:"csr,omitempty"`   // CSR variant: the leaf holds a request made from KeyFix
-	Seq    []int  `json:"seq"`             // trigger sequence
-	Deco   int    `json:"deco,omitempty"`  // how the hand-made file is decorated around the PEM block (c14Decos)
-	Swap   bool   `json:"swap,omitempty"`  // after the sequence: the key block in the file is replaced by hand with another key of the same kind, then regenerated twice
-	Place  int    `json:"place,omitempty"` // 0 flat directory, alias = file stem; 1 configs in sub-directories with explicit aliases that differ from their file stems
+	CSR    bool   `json:"csr,omitempty"`    // CSR variant: the leaf holds a request made from KeyFix
+	Seq    []int  `json:"seq"`              // trigger sequence
+	Deco   int    `json:"deco,omitempty"`   // how the hand-made file is decorated around the PEM block (c14Decos)
+	Swap   bool   `json:"swap,omitempty"`   // after the sequence: the key block in the file is replaced by hand with another key of the same kind, then regenerated twice
+	Bundle bool   `json:"bundle,omitempty"` // after the sequence: the file is rewritten with the certificate block three times in front of the key (a chain-style bundle), then regenerated
+	Place  int    `json:"place,omitempty"`  // 0 flat directory, alias = file stem; 1 configs in sub-directories with explicit aliases that differ from their file stems
 }
 
 var c14Triggers = []string{"edit-subject", "touch+outdated", "generate-all", "strip-certificate", "expire", "renew+expired-flag", "regenerate-issuer", "keyalg-to-rsa", "keyalg-to-ec", "strip-hash"}
@@ -124,6 +125,10 @@ func c14Enumerate(tier string, yield func(any)) {
 		}
 		for _, seq := range [][]int{{}, {0}} {
 			yield(&c14Case{Origin: "gopki", KeyFix: FixtureForAlg(alg, 0), Seq: seq, Swap: true})
+		}
+		yield(&c14Case{Origin: "gopki", KeyFix: FixtureForAlg(alg, 0), Seq: []int{}, Bundle: true})
+		if alg == "P-256" || alg == "RSA-2048" {
+			yield(&c14Case{Origin: "csr", KeyFix: FixtureForAlg(alg, 0), CSR: true, Seq: []int{}, Bundle: true})
 		}
 	}
 	for i := range refx509.Curves {
@@ -314,7 +319,7 @@ func c14Exec(x *engine.Ctx, cc any) {
 		}
 		w.Put(ArtifactPath(mid.Path), content)
 	}
-	desc := fmt.Sprintf("origin=%s key=%s layout=%d csr=%v file=%s place=%d rekey=%v", c.Origin, c.KeyFix, c.Layout, c.CSR, c14Decos[c.Deco], c.Place, c.Swap)
+	desc := fmt.Sprintf("origin=%s key=%s layout=%d csr=%v file=%s place=%d rekey=%v bundle=%v", c.Origin, c.KeyFix, c.Layout, c.CSR, c14Decos[c.Deco], c.Place, c.Swap, c.Bundle)
 	feat := fmt.Sprintf("origin=%s family=%s", c.Origin, map[bool]string{true: "RSA", false: curveFamily(key.Describe())}[key.RSA != nil])
 	if c.Deco > 0 {
 		feat += " file=" + c14Decos[c.Deco]
@@ -446,6 +451,29 @@ func c14Exec(x *engine.Ctx, cc any) {
 			return
 		}
 	}
+	if c.Bundle {
+		// bundle layout of other tools: several certificate blocks in front of the key (here the same one thrice,
+		// so that whichever block is taken for the entity's certificate, it is its certificate)
+		p := ArtifactPath(target.Path)
+		pf := refx509.SplitPem(w.Files[p].Data)
+		var nb []byte
+		if pf.HashLine != nil {
+			nb = append(nb, []byte("#HASH:"+*pf.HashLine+"\n")...)
+		}
+		for k := 0; k < 3; k++ {
+			nb = append(nb, refx509.EncodePem("CERTIFICATE", pf.CertDER)...)
+		}
+		for _, b := range pf.Blocks {
+			if b.Type != "CERTIFICATE" {
+				nb = append(nb, refx509.EncodePem(b.Type, b.Bytes)...)
+			}
+		}
+		w.Put(p, nb)
+		feat += " certificate-blocks-in-front-of-the-key"
+		if !run(16, "bundle layout + generate-all") {
+			return
+		}
+	}
 	if c.Swap && !c.CSR {
 		// the user replaces the key block by hand (re-keying): from now on this is the entity's key
 		other := strings.TrimSuffix(strings.TrimSuffix(c.KeyFix, "-0"), "-1") + map[bool]string{true: "-1", false: "-0"}[strings.HasSuffix(c.KeyFix, "-0")]
@@ -494,7 +522,7 @@ func init() {
 	register(&engine.Check{
 		ID:          "C14",
 		Level:       "model_checking",
-		Rule:        "chain root -> mid -> leaf where mid owns a pre-existing key (so children exist), in a flat directory with file-derived aliases and (trigger sequences of length <=1) in sub-directories with explicit aliases that differ from the file stems. Key origins: each of the 14 algorithms written by gopki's own PKCS#8 writer, standard-library PKCS#8 for RSA 1024/2048/4096 and the NIST curves, reference-built PKCS#8 for all 10 curves in 6 layouts (curve OID outer only, outer + public key, inner only, inner + public key, both + public key, outer + compressed public key), PKCS#8 for all 10 curves whose scalar is written without its one or two leading zero octets; CSR variant: the leaf holds only a request made from 8 key types. Each origin also with the file decorated the way hand-assembled or exported files are (trailing blank line, trailing remark, leading Bag-Attributes text, CRLF line ends, blank lines around, a #HASH line behind the block, the key followed by a traditional-form or an encrypted key block) followed by no trigger, edit-subject or generate-all. From each, every trigger sequence of length <=2 for 15 representative origins and <=1 for the others (quick) / <=3 for every origin (thorough) over {edit subject, touch + generate-outdated, generate-all, strip certificate block, expire (dates in the past), renew + generate-expired, regenerate issuer, change keyAlgorithm to RSA, to another curve, strip hash line}. For every key algorithm also: after the first run(s) the key block is replaced by hand with another key of the same kind, then generate-all and an edit (the new key is the entity's key from then on). After every run: stored key is the same key, certificate SPKI is its public key, mid verifies under root and leaf under mid with byte-equal issuer DN; CSR variant: SPKI bytes = request SPKI, request block byte-identical, no PRIVATE KEY block. states = (origin, trigger prefix), transitions = runs",
+		Rule:        "chain root -> mid -> leaf where mid owns a pre-existing key (so children exist), in a flat directory with file-derived aliases and (trigger sequences of length <=1) in sub-directories with explicit aliases that differ from the file stems. Key origins: each of the 14 algorithms written by gopki's own PKCS#8 writer, standard-library PKCS#8 for RSA 1024/2048/4096 and the NIST curves, reference-built PKCS#8 for all 10 curves in 6 layouts (curve OID outer only, outer + public key, inner only, inner + public key, both + public key, outer + compressed public key), PKCS#8 for all 10 curves whose scalar is written without its one or two leading zero octets; CSR variant: the leaf holds only a request made from 8 key types. Each origin also with the file decorated the way hand-assembled or exported files are (trailing blank line, trailing remark, leading Bag-Attributes text, CRLF line ends, blank lines around, a #HASH line behind the block, the key followed by a traditional-form or an encrypted key block) followed by no trigger, edit-subject or generate-all. From each, every trigger sequence of length <=2 for 15 representative origins and <=1 for the others (quick) / <=3 for every origin (thorough) over {edit subject, touch + generate-outdated, generate-all, strip certificate block, expire (dates in the past), renew + generate-expired, regenerate issuer, change keyAlgorithm to RSA, to another curve, strip hash line}. For every key algorithm also: the artifact rewritten with its certificate block three times in front of the key or request (bundle layout) and regenerated; after the first run(s) the key block is replaced by hand with another key of the same kind, then generate-all and an edit (the new key is the entity's key from then on). After every run: stored key is the same key, certificate SPKI is its public key, mid verifies under root and leaf under mid with byte-equal issuer DN; CSR variant: SPKI bytes = request SPKI, request block byte-identical, no PRIVATE KEY block. states = (origin, trigger prefix), transitions = runs",
 		Bound:       map[string]string{"trigger sequence": "quick<=2 thorough<=3"},
 		Assumptions: []string{"key identity is compared on the private scalar / (N, D)"},
 		Budget:      budgets(quickBudget, thoroughBudget),
